@@ -31,6 +31,7 @@ structure DSess where
   gone      : Bool := false         -- removed from the handler's session table
   calls     : List (String × Option ReqId × Bool) := []   -- pending server→client calls: tag, ctx, ctxNew
   names     : List SId := []        -- stream ids in order of first appearance: printed name of `names[i]` is t(i+1)
+  reqIds    : List ReqId := []      -- every request id ever POSTed on this session (to enumerate `requestStreams`)
 
 structure MExch where
   k       : Nat
@@ -174,7 +175,7 @@ def showSnap (s0 : DSess) : DSess × String :=
   let rows := order.filterMap fun n =>
     let sid := if n == 0 then 0 else (s.names[n - 1]?).getD 0
     (findStream sid c.streams).map (showStream s)
-  let rq := (c.reqStreams.toArray.qsort (fun a b => a.1 < b.1)).toList.map fun (r, sid) => s!"{r}>{tname s sid}"
+  let rq := (sortNat s.reqIds.eraseDups).filterMap fun r => (c.reqStreams r).map fun sid => s!"{r}>{tname s sid}"
   (s, "S" ++ s.name ++ "[" ++ ";".intercalate rows ++ "|" ++ ",".intercalate rq ++ "]" ++ (if c.isDone then "D" else ""))
 
 def showRes : Res → Bool → String
@@ -194,14 +195,16 @@ def renderDelta (old new : DState) (extra : List String) (snaps : List String) :
     let mut ends : List Nat := []
     let mut cur := new
     for s0 in new.sess do
-      let o := (getSess old s0.name).getD { s0 with conn := { s0.conn with exs := [], store := [], isDone := false }, exMap := [] }
+      let o := (getSess old s0.name).getD { s0 with conn := { s0.conn with exs := [], store := fun _ => none, isDone := false }, exMap := [] }
       let oc := o.conn
       let nc := s0.conn
-      -- names for streams that appear in appends / event ids (store order = creation order)
-      let s := (nc.store.map (·.1)).foldl nameSid s0
+      -- names for streams that appear in appends / event ids (creation order)
+      let keys := (List.range nc.nextSid).filter fun sid => (nc.store sid).isSome
+      let s := keys.foldl nameSid s0
       cur := putSess cur s
-      for (sid, log) in nc.store do
-        let olen := ((logOf sid oc.store).map List.length).getD 0
+      for sid in keys do
+        let log := (nc.store sid).getD []
+        let olen := ((oc.store sid).map List.length).getD 0
         for x in log.drop olen do
           let p := match x with
             | none => "-"
@@ -253,7 +256,7 @@ def applyLabels (d : DState) (s : DSess) (ls : List (Label String)) : DState × 
         d := { d with nex := d.nex + 1 }
         s := { s with exMap := s.exMap ++ [d.nex] }
       -- the store sees a stream id (Open / Append): it is named now
-      s := (s.conn.store.map (·.1)).foldl nameSid s
+      s := ((List.range s.conn.nextSid).filter fun sid => (s.conn.store sid).isSome).foldl nameSid s
     return (d, s, res)
 
 /-- exchanges of `s` that are attached to some stream (their handler is hanging) -/
@@ -312,7 +315,7 @@ def modelOp (d : DState) (toks : List String) : Option OpOut :=
   | "init" :: n :: _ =>
     let id := ((kvGet toks "id").bind String.toNat?).getD 0
     let v := parseVer (kvGet toks "v")
-    let s : DSess := { name := n, conn := init (mkCfg d false) }
+    let s : DSess := { name := n, conn := init (mkCfg d false), reqIds := [id] }
     let (d1, s1, _) := applyLabels d s [.post [id] false v (parseBudget (kvGet toks "b")),
                                         .write (.resp id s!"R.{id}.init") (some id) false]
     let (d2, s2) := settle d1 s1
@@ -327,21 +330,22 @@ def modelOp (d : DState) (toks : List String) : Option OpOut :=
     let v := parseVer (kvGet toks "hv")
     let b := parseBudget (kvGet toks "b")
     if (d.cfg.map (·.stateless)).getD false then
-      let s : DSess := { name := n, conn := init (mkCfg d true), stateless := true, newProto := v.isNew, parked := ids }
+      let s : DSess := { name := n, conn := init (mkCfg d true), stateless := true, newProto := v.isNew, parked := ids, reqIds := ids }
       let (d1, s1, _) := applyLabels d s [.post ids false v b]
       let (d2, s2) := settle d1 s1
       some { d := putSess d2 s2, snaps := [n] }
     else
       some <| withSess d n fun s =>
         if s.gone then let (d1, t) := handlerExch d 404; { d := d1, extra := [t], endsX := [d1.nex], snaps := [n] } else
-        let dup := (dedup ids).any fun r => (lookupReq r s.conn.reqStreams).isSome
+        let dup := (dedup ids).any fun r => (s.conn.reqStreams r).isSome
+        let s := { s with reqIds := s.reqIds ++ ids }
         let (d1, s1, _) := applyLabels d s [.post ids false v b]
         let s1 := if dup then s1 else { s1 with parked := s1.parked ++ ids }
         let (d2, s2) := settle d1 s1
         { d := putSess d2 s2, snaps := [n] }
   | "listen" :: n :: _ =>
     let id := ((kvGet toks "id").bind String.toNat?).getD 0
-    let s : DSess := { name := n, conn := init (mkCfg d true), stateless := true, newProto := true, listenS := true, parked := [id] }
+    let s : DSess := { name := n, conn := init (mkCfg d true), stateless := true, newProto := true, listenS := true, parked := [id], reqIds := [id] }
     let (d1, s1, _) := applyLabels d s [.post [id] true .v0728 (parseBudget (kvGet toks "b")),
                                         .write (.notif "U.notifications/subscriptions/acknowledged") (some id) true]
     let (d2, s2) := settle d1 s1
